@@ -32,6 +32,9 @@ def run_rules(mod, chk):
         mod.check(chk)
     except StopCheck:
         pass
+    else:
+        from sa import generic
+        generic.whole_collection_loops(chk)
     return chk
 
 
